@@ -117,6 +117,11 @@ def run_property(prop, tier, hs, seed, jobs=6, mem=50, keep=False):
             print("VIOLATION property=%s replay=%s" % (prop, r["replay"]), flush=True)
             print("  harness %s: %s" % (h.name, r["detail"]), flush=True)
             code = 1
+    for h in hs:
+        r = results[h.name]
+        if r["verdict"] == "inconclusive" and h.best_effort and "did NOT reproduce" not in r["detail"]:
+            r["verdict"] = "not_completed"
+            print("NOT-COMPLETED (best effort) property=%s harness=%s: %s" % (prop, h.name, r["detail"]), flush=True)
     if code == 0 and any(results[h.name]["verdict"] in ("inconclusive", "skipped") for h in hs):
         for h in hs:
             r = results[h.name]
@@ -207,8 +212,8 @@ def write_evidence(prop, tier, seed, out, wall):
         for a in h.assumptions:
             if a not in assumptions:
                 assumptions.append(a)
-        if r["verdict"] == "inconclusive":
-            incon.append({"harness": h.name, "why": r["detail"]})
+        if r["verdict"] in ("inconclusive", "not_completed"):
+            incon.append({"harness": h.name, "why": r["detail"], "best_effort": h.best_effort})
     ev = {
         "property_id": prop, "tier": tier, "seed": seed, "level": "model_checking",
         "coverage": {
